@@ -306,6 +306,10 @@ pub struct Sim {
     pub csrs: Vec<(String, String)>, // (base64 der, key id hex)
     pub max_quiesce_steps: usize,
     pub cas_ever: BTreeSet<String>,
+    /// called after every background task (task name); the first problem it
+    /// reports is kept in `task_bad`
+    pub task_hook: Option<fn(&Sim, &str) -> Result<(), (String, String, String)>>,
+    pub task_bad: Option<(String, String, String)>,
 }
 
 #[derive(Debug)]
@@ -349,6 +353,8 @@ impl Sim {
             csrs: crate::csr::pool(),
             max_quiesce_steps: 2000,
             cas_ever: BTreeSet::new(),
+            task_hook: None,
+            task_bad: None,
         })
     }
 
@@ -377,12 +383,92 @@ impl Sim {
         self.w().cam().get_ca(&h).ok().map(|c| c.as_ca_info())
     }
 
+    /// Runs one due task (if any) and the per-task hook.
+    pub fn pump_one(&mut self) -> Result<Option<String>, Fail> {
+        let name = self.wm().pump_one()?;
+        if let (Some(name), Some(hook)) = (name.as_ref(), self.task_hook) {
+            if self.task_bad.is_none() {
+                if let Err(b) = hook(self, name) {
+                    self.task_bad = Some(b);
+                }
+            }
+        }
+        Ok(name)
+    }
+
+    pub fn pump_n(&mut self, n: usize) -> Step {
+        for _ in 0..n {
+            if self.pump_one()?.is_none() {
+                break;
+            }
+        }
+        Ok(())
+    }
+
+    /// Runs due tasks until nothing is due within the next three seconds.
     pub fn quiesce(&mut self) -> Step {
         let max = self.max_quiesce_steps;
-        match self.wm().pump_quiesce(max)? {
-            Ok(_) => Ok(()),
-            Err(trace) => Err(Fail::Violation(format!("background work does not settle: {trace}"))),
+        let mut steps = 0;
+        let mut last = String::new();
+        let mut same = 0;
+        loop {
+            while let Some(name) = self.pump_one()? {
+                steps += 1;
+                // A task that is rescheduled to "the same second" spins until
+                // the wall clock moves on; move the virtual clock instead.
+                if name == last {
+                    same += 1;
+                    if same >= 20 {
+                        clock::advance(1);
+                        same = 0;
+                    }
+                } else {
+                    last = name;
+                    same = 0;
+                }
+                if steps >= max {
+                    let tail: Vec<_> = self.w().task_trace.iter().rev().take(30).cloned().collect();
+                    return Err(Fail::Violation(format!(
+                        "background work does not settle: no quiescence after {steps} task steps; last tasks (newest first): {tail:?}"
+                    )));
+                }
+            }
+            let now_ms = (clock::now_s() as u128) * 1000;
+            let soon = self.w().pending_tasks().into_iter().find(|(ts, _)| *ts <= now_ms + 3_000);
+            match soon {
+                Some(_) => clock::advance(1),
+                None => return Ok(()),
+            }
         }
+    }
+
+    /// "Background work has caught up": quiescence, the periodic parent
+    /// refresh of every CA (once per hierarchy level) and any RRDP update
+    /// that waits for its minimal interval.
+    pub fn converge(&mut self) -> Step {
+        self.quiesce()?;
+        for _ in 0..3 {
+            let w = self.w.as_ref().unwrap();
+            let _ = crate::world::guarded(|| w.refresh_all())?;
+            self.quiesce()?;
+        }
+        for _ in 0..6 {
+            let now_ms = (clock::now_s() as u128) * 1000;
+            let due = self
+                .w()
+                .pending_tasks()
+                .into_iter()
+                .find(|(_, n)| n.starts_with("update_rrdp_if_needed"))
+                .map(|(ts, _)| ts);
+            match due {
+                Some(ts) if ts > now_ms => {
+                    clock::advance(((ts - now_ms) / 1000) as i64 + 1);
+                    self.quiesce()?;
+                }
+                _ => break,
+            }
+        }
+        Ok(())
     }
 
     /// Applies one operation. Panics / would-be exits inside krill are
@@ -818,10 +904,25 @@ impl Sim {
                 if !self.model.cas.contains_key(&name) {
                     Err("no such ca".into())
                 } else {
+                    // does a staged new key carry other resources than the
+                    // active key (entitlements changed during the roll)?
+                    let mut differs = false;
+                    if let Some(info) = self.ca_info(&name) {
+                        for rc in info.resource_classes.values() {
+                            if let ResourceClassKeysInfo::RollNew(r) = &rc.keys {
+                                if r.new_key.incoming_cert.resources != r.active_key.incoming_cert.resources {
+                                    differs = true;
+                                }
+                            }
+                        }
+                    }
                     let w = self.w.as_ref().unwrap();
                     let r = crate::world::guarded(|| w.keyroll_activate(&name))?;
                     if r.is_ok() {
                         self.flags.hit("keyroll_activate");
+                        if differs {
+                            self.flags.hit(&format!("activated_key_with_other_resources:{name}"));
+                        }
                     }
                     r
                 }
@@ -894,7 +995,7 @@ impl Sim {
             }
             Op::Pump { n } => {
                 let n = *n as usize;
-                self.wm().pump_n(n)?;
+                self.pump_n(n)?;
                 Ok(())
             }
             Op::Quiesce => {
@@ -902,34 +1003,7 @@ impl Sim {
                 Ok(())
             }
             Op::Check => {
-                self.quiesce()?;
-                // "background work has caught up" includes the periodic
-                // parent refresh of every CA (a grand-child only learns of a
-                // shrunk certificate at its next refresh): run it, once per
-                // hierarchy level.
-                for _ in 0..3 {
-                    let w = self.w.as_ref().unwrap();
-                    let _ = crate::world::guarded(|| w.refresh_all())?;
-                    self.quiesce()?;
-                }
-                // with a minimal RRDP delta interval, staged changes are
-                // legitimately not in RRDP yet: wait for the interval
-                for _ in 0..6 {
-                    let now_ms = (clock::now_s() as u128) * 1000;
-                    let due = self
-                        .w()
-                        .pending_tasks()
-                        .into_iter()
-                        .find(|(_, n)| n.starts_with("update_rrdp_if_needed"))
-                        .map(|(ts, _)| ts);
-                    match due {
-                        Some(ts) if ts > now_ms => {
-                            clock::advance(((ts - now_ms) / 1000) as i64 + 1);
-                            self.quiesce()?;
-                        }
-                        _ => break,
-                    }
-                }
+                self.converge()?;
                 Ok(())
             }
             Op::Snapshot => {
@@ -963,8 +1037,35 @@ impl Sim {
                 }
             }
         };
+        if matches!(op, Op::Pump { .. } | Op::Quiesce | Op::Check | Op::Restart) {
+            self.sync_suspension_from_krill();
+        }
         self.note(op, &res);
         Ok(())
+    }
+
+    /// A suspended child is un-suspended by krill as soon as it sends a
+    /// request (documented behaviour); follow krill's own view of which
+    /// children are suspended after background work ran.
+    pub fn sync_suspension_from_krill(&mut self) {
+        let parents: Vec<String> = self.model.cas.keys().cloned().collect();
+        for p in parents {
+            let Some(info) = self.ca_info(&p) else { continue };
+            let suspended: BTreeSet<String> = info.suspended_children.iter().map(|c| c.to_string()).collect();
+            let pm = self.model.cas.get_mut(&p).unwrap();
+            let mut unsusp = 0;
+            for (c, cm) in pm.children.iter_mut() {
+                let now = suspended.contains(c);
+                if cm.suspended && !now {
+                    unsusp += 1;
+                }
+                cm.suspended = now;
+            }
+            for _ in 0..unsusp {
+                self.flags.hit("child_unsuspended");
+                self.flags.hit("child_auto_unsuspended");
+            }
+        }
     }
 
     fn is_ancestor(&self, anc: &str, of: &str) -> bool {
